@@ -101,3 +101,132 @@ Lemma inv_N N : (0 < N)%nat -> (1 # Pos.of_nat N) * inject_Z (Z.of_nat N) == 1.
 Proof.
   intros H. unfold Qeq, Qmult, inject_Z. cbn [Qnum Qden]. rewrite (of_nat_pos N H). lia.
 Qed.
+
+(** ** expectation over grid draws *)
+Lemma EU_ext N : forall n f g, (forall l, f l == g l) -> EU N n f == EU N n g.
+Proof.
+  induction n as [|n IH]; intros f g H; cbn [EU]; [apply H|].
+  apply Qmult_comp; [reflexivity|]. apply sumN_ext. intros k _. apply IH. intros l. apply H.
+Qed.
+Lemma EU_scal N : forall n c f, EU N n (fun l => c * f l) == c * EU N n f.
+Proof.
+  induction n as [|n IH]; intros c f; cbn [EU]; [reflexivity|].
+  rewrite (sumN_ext N _ (fun k => c * EU N n (fun l => f (grid N k :: l)))) by (intros k _; apply IH).
+  rewrite sumN_scal. ring.
+Qed.
+Lemma EU_const N : (0 < N)%nat -> forall n c, EU N n (fun _ => c) == c.
+Proof.
+  intros HN. induction n as [|n IH]; intros c; cbn [EU]; [reflexivity|].
+  rewrite (sumN_ext N _ (fun _ => c)) by (intros k _; apply IH). rewrite sumN_const, Qmult_assoc, inv_N by exact HN. ring.
+Qed.
+
+(** one coordinate: averaging over the grid is a Bernoulli(bern N p) mixture *)
+Lemma grid_step N p (g : bool -> Q) : (0 < N)%nat ->
+  (1 # Pos.of_nat N) * sumN N (fun k => g (Qltb (grid N k) p)) == bern N p * g true + (1 - bern N p) * g false.
+Proof.
+  intros HN. set (NZ := Z.of_nat N). assert (HZ : (0 < NZ)%Z) by (unfold NZ; lia).
+  destruct (cnt_range NZ p HZ) as [C0 C1]. set (c := Z.to_nat (cntZ NZ p)).
+  rewrite (sumN_ext N _ (fun k => g (k <? c)%nat)).
+  - rewrite sumN_ltb by (unfold c, NZ in *; lia).
+    assert (Ec : Z.of_nat c = cntZ NZ p) by (unfold c; lia).
+    assert (Ed : Z.of_nat (N - c) = (NZ - cntZ NZ p)%Z) by (unfold c, NZ in *; lia).
+    rewrite Ec, Ed. unfold bern. fold NZ.
+    assert (B : (cntZ NZ p # Pos.of_nat N) == (1 # Pos.of_nat N) * inject_Z (cntZ NZ p)).
+    { unfold Qeq, Qmult, inject_Z. cbn [Qnum Qden]. lia. }
+    rewrite B. unfold Zminus. rewrite inject_Z_plus, inject_Z_opp.
+    assert (I := inv_N N HN). fold NZ in I.
+    set (w := 1 # Pos.of_nat N) in *. set (x := inject_Z (cntZ NZ p)). set (y := inject_Z NZ) in *.
+    transitivity (w * x * g true + (w * y - w * x) * g false); [ring|]. rewrite I. ring.
+  - intros k Hk. f_equal. unfold grid. rewrite Qltb_grid. rewrite <- (of_nat_pos N HN). fold NZ.
+    rewrite cnt_spec by (unfold NZ; lia).
+    destruct (Z.ltb_spec (Z.of_nat k) (cntZ NZ p)), (Nat.ltb_spec k c); unfold c in *; try reflexivity; lia.
+Qed.
+
+(** REFINEMENT: any function of the crossover row of the C01 model, under independent grid-uniform draws, has the
+    expectation it has under independent Bernoulli(bern N xoprob_j) crossover indicators *)
+Theorem EU_xo_row N : (0 < N)%nat -> forall xoprob f,
+  EU N (length xoprob) (fun rnd => f (xo_row rnd xoprob)) == E (map (bern N) xoprob) f.
+Proof.
+  intros HN. induction xoprob as [|p ps IH]; intros f; cbn [length EU map E xo_row]; [reflexivity|].
+  rewrite (sumN_ext N _ (fun k => (fun b => E (map (bern N) ps) (fun x => f (b :: x))) (Qltb (grid N k) p))).
+  - rewrite (grid_step N p (fun b => E (map (bern N) ps) (fun x => f (b :: x))) HN). reflexivity.
+  - intros k _. cbn [hd tl]. apply (IH (fun x => f (Qltb (grid N k) p :: x))).
+Qed.
+
+(** ** independence across gametes: rows of the uniform matrix *)
+Lemma EUM_ext N p : forall n f g, (forall m, f m == g m) -> EUM N n p f == EUM N n p g.
+Proof.
+  induction n as [|n IH]; intros f g H; cbn [EUM]; [apply H|]. apply EU_ext. intros r. apply IH. intros m. apply H.
+Qed.
+Lemma EUM_scal N p : forall n c f, EUM N n p (fun m => c * f m) == c * EUM N n p f.
+Proof.
+  induction n as [|n IH]; intros c f; cbn [EUM]; [reflexivity|].
+  rewrite (EU_ext N p _ (fun r => c * EUM N n p (fun m => f (r :: m)))) by (intros r; apply IH). apply EU_scal.
+Qed.
+Lemma EUM_const N p : (0 < N)%nat -> forall n c, EUM N n p (fun _ => c) == c.
+Proof.
+  intros HN. induction n as [|n IH]; intros c; cbn [EUM]; [reflexivity|].
+  rewrite (EU_ext N p _ (fun _ => c)) by (intros r; apply IH). now apply EU_const.
+Qed.
+Lemma EUM_marginal N p : (0 < N)%nat -> forall n k g, (k < n)%nat ->
+  EUM N n p (fun m => g (nth k m [])) == EU N p g.
+Proof.
+  intros HN. induction n as [|n IH]; intros k g H; [lia|]. cbn [EUM]. destruct k as [|k]; cbn [nth].
+  - apply EU_ext. intros r. now apply EUM_const.
+  - rewrite (EU_ext N p _ (fun _ => EU N p g)) by (intros r; apply IH; lia). now apply EU_const.
+Qed.
+
+Lemma EUM_product_lt N p : (0 < N)%nat -> forall n i k f g, (i < k)%nat -> (k < n)%nat ->
+  EUM N n p (fun m => f (nth i m []) * g (nth k m [])) == EU N p f * EU N p g.
+Proof.
+  intros HN. induction n as [|n IH]; intros i k f g Hik Hk; [lia|]. cbn [EUM].
+  destruct k as [|k]; [lia|]. destruct i as [|i]; cbn [nth].
+  - rewrite (EU_ext N p _ (fun r => EU N p g * f r)).
+    + rewrite EU_scal. ring.
+    + intros r. rewrite EUM_scal, EUM_marginal by (exact HN || lia). ring.
+  - rewrite (EU_ext N p _ (fun _ => EU N p f * EU N p g)) by (intros r; apply IH; lia). now apply EU_const.
+Qed.
+
+(** gametes i <> k of one mat_meiosis call are functions of different rows of the uniform matrix, hence independent:
+    the expectation of a product of any two functions of the two rows factorises *)
+Theorem gametes_independent N p n i k f g : (0 < N)%nat -> (i < n)%nat -> (k < n)%nat -> i <> k ->
+  EUM N n p (fun m => f (nth i m []) * g (nth k m [])) == EU N p f * EU N p g.
+Proof.
+  intros HN Hi Hk Hne. destruct (Nat.lt_ge_cases i k) as [L|L].
+  - now apply EUM_product_lt.
+  - rewrite (EUM_ext N p n _ (fun m => g (nth k m []) * f (nth i m []))) by (intros m; ring).
+    rewrite EUM_product_lt by (exact HN || lia). ring.
+Qed.
+
+(** ** the rates under uniform draws (composition of the refinement with Proofs/C02_Rates.v) *)
+Theorem uniform_pair_rate N xoprob i j : (0 < N)%nat -> (i < j)%nat -> (j < length xoprob)%nat ->
+  EU N (length xoprob) (fun rnd => ind (recomb i j (xo_row rnd xoprob)))
+  == (1 - prod12 (between i j (map (bern N) xoprob))) / 2.
+Proof.
+  intros HN Hij H. rewrite (EU_xo_row N HN xoprob (fun xo => ind (recomb i j xo))).
+  apply pair_rate; [exact Hij|now rewrite map_length].
+Qed.
+
+Theorem uniform_adjacent_rate N xoprob j : (0 < N)%nat -> (S j < length xoprob)%nat ->
+  EU N (length xoprob) (fun rnd => ind (recomb j (S j) (xo_row rnd xoprob))) == bern N (nth (S j) xoprob 0).
+Proof.
+  intros HN H. rewrite (EU_xo_row N HN xoprob (fun xo => ind (recomb j (S j) xo))).
+  fold (Pr (map (bern N) xoprob) (recomb j (S j))). rewrite adjacent_rate by (now rewrite map_length).
+  rewrite (nth_indep _ 0 (bern N 0)) by (now rewrite map_length). now rewrite map_nth.
+Qed.
+
+Lemma bern_half N : (0 < N)%nat -> bern (2 * N) (1 # 2) == 1 # 2.
+Proof.
+  intros H. unfold bern. rewrite (of_nat_pos (2 * N)) by lia.
+  replace (Pos.of_nat (2 * N)) with (2 * Pos.of_nat N)%positive by (rewrite Nat2Pos.inj_mul by lia; reflexivity).
+  rewrite grid_exact_half. unfold Qeq. cbn [Qnum Qden]. lia.
+Qed.
+
+(** segregation under uniform draws on an even grid: a stored probability of exactly 1/2 at some marker k <= j gives 1/2 *)
+Theorem uniform_segregation N xoprob k j : (0 < N)%nat -> (k <= j)%nat -> (j < length xoprob)%nat -> nth k xoprob 0 = 1 # 2 ->
+  EU (2 * N) (length xoprob) (fun rnd => ind (src_at j (xo_row rnd xoprob))) == 1 # 2.
+Proof.
+  intros HN H1 H2 Hk. rewrite (EU_xo_row (2 * N) ltac:(lia) xoprob (fun xo => ind (src_at j xo))).
+  apply (segregation (map (bern (2 * N)) xoprob) k j H1); [now rewrite map_length|].
+  rewrite (nth_indep _ 0 (bern (2 * N) 0)) by (rewrite map_length; lia). rewrite map_nth, Hk. now apply bern_half.
+Qed.
